@@ -1,172 +1,1764 @@
-"""C12 - Profile string literals encode and decode bytes losslessly and safely (structural core)."""
+"""C12 - Profile string literals encode and decode bytes losslessly and safely (structural core).
+
+The encoder (`value_to_string`) and the decoder (`string_token_to_bytes`) are analysed by a small path-sensitive
+*abstract interpreter* over their (normalised) ASTs instead of by matching statement shapes:
+
+* encoder: the function is evaluated symbolically once under "the argument is bytes" and once under "the argument is
+  str"; the returned value is a term over the parameter (repr / slice / replace / concatenation ...).  The rules look at
+  that term, so it does not matter which variables carry the intermediate values, whether calls are chained, whether the
+  branches are nested ifs or early returns, or whether a step lives in a (inlined) helper.
+* decoder: ONE iteration of the decoding loop is evaluated for every concrete character the iterator can deliver
+  (the iterator reduces characters to 0x00-0xff): for an ordinary character, and for a backslash followed by every
+  possible escape letter.  The iterator itself is abstract: `has_next(n)` forks the path, `next(..)` yields symbolic hex
+  digits tagged with their position in the literal.  Each path gives a trace of events (availability checks, reads,
+  appended values, raise) - the rules are phrased on these traces, so an elif chain, a lookup table, `match`, a helper
+  returning the byte, `for c in it` or `while it.has_next(): c = next(it)` are all the same thing.
+
+Nothing of /repo is imported or executed: the interpreter only folds constants with Python builtins (ord, chr, int,
+dict lookups, str methods on literals) and treats everything else as unknown.  A construct it does not model makes the
+rule *undecided*, never violated.
+"""
 
 from __future__ import annotations
 
 import ast
+import operator
 
 from csverif import tables
-from csverif.astutil import assignments_to, body_walk, compare_parts, const_eval, disjuncts, dotted, fn_calls, is_const, NotConst, params, src, statements
-from csverif.cfg import ENTRY, EXIT
+from csverif.astutil import assignments_to, bind_args, body_walk, dotted, params, src, statements
 from csverif.grammar import Grammar
-from csverif.q import FuncView, guarded_by, origin, raise_class, specialise
+from csverif.q import FuncView, inline, raise_class
 
 
-def _c(node):
-    try:
-        return const_eval(node) if node is not None else None
-    except (NotConst, TypeError):
+# ============================================================================================ mini abstract interpreter
+class _Unsupported(Exception):
+    """The code uses a construct the interpreter does not model: the rule cannot locate its subject -> undecided."""
+
+
+class _Flow(Exception):
+    def __init__(self, kind, value=None):
+        Exception.__init__(self, kind)
+        self.kind = kind
+        self.value = value
+
+
+class _Sym:
+    """A symbolic (not constant) value: tag + arguments (+ the Python type it is known to have, if any)."""
+
+    __slots__ = ("tag", "args", "typ")
+
+    def __init__(self, tag, args=(), typ=None):
+        self.tag = tag
+        self.args = tuple(args)
+        self.typ = typ
+
+    def __eq__(self, other):
+        return isinstance(other, _Sym) and (self.tag, self.args, self.typ) == (other.tag, other.args, other.typ)
+
+    def __ne__(self, other):
+        return not self.__eq__(other)
+
+    def __hash__(self):
+        return hash((self.tag, self.typ))
+
+    def __bool__(self):  # a symbolic value has no truth value: the interpreter must fork explicitly
+        raise TypeError("truth value of a symbolic value")
+
+    def __repr__(self):
+        if self.tag == "unk":
+            return f"<?{self.args[0] if self.args else ''}>"
+        if self.tag == "digits":
+            return f"<characters {', '.join(str(p - 2) for p in self.args[0])} after the escape letter>"
+        if self.tag == "int":
+            return f"int(<characters {', '.join(str(p - 2) for p in self.args[0])} after the escape letter>, {self.args[1]})"
+        return f"{self.tag}({', '.join(map(repr, self.args))})"
+
+
+_NOHOOK = object()
+_ITER = _Sym("iter")
+
+_BINOPS = {
+    ast.Add: operator.add, ast.Sub: operator.sub, ast.Mult: operator.mul, ast.FloorDiv: operator.floordiv, ast.Mod: operator.mod,
+    ast.BitAnd: operator.and_, ast.BitOr: operator.or_, ast.BitXor: operator.xor, ast.LShift: operator.lshift, ast.RShift: operator.rshift,
+}
+_CMPOPS = {
+    ast.Eq: operator.eq, ast.NotEq: operator.ne, ast.Lt: operator.lt, ast.LtE: operator.le, ast.Gt: operator.gt, ast.GtE: operator.ge,
+    ast.Is: operator.is_, ast.IsNot: operator.is_not, ast.In: lambda a, b: a in b, ast.NotIn: lambda a, b: a not in b,
+}
+# methods of builtin *constants* the interpreter may evaluate (pure, no repository code involved)
+_PURE_METHODS = {
+    str: {"join", "lower", "upper", "strip", "lstrip", "rstrip", "startswith", "endswith", "replace", "encode", "format", "isdigit", "isalnum", "isalpha",
+          "split", "removeprefix", "removesuffix", "zfill", "find", "index", "count", "casefold", "isprintable", "isascii", "partition", "rpartition"},
+    bytes: {"decode", "hex", "startswith", "endswith", "replace", "join", "strip", "lstrip", "rstrip", "find", "index", "count", "split", "removeprefix", "removesuffix"},
+    dict: {"get", "keys", "values", "items", "copy"},
+    list: {"index", "count", "copy"},
+    tuple: {"index", "count"},
+    frozenset: {"union", "intersection", "copy"},
+    set: {"union", "intersection", "copy"},
+    int: {"to_bytes", "bit_length"},
+}
+_NOT_NONE_TAGS = {"digits", "int", "bytesof", "buf", "iter", "repr", "slice", "rep", "condrep", "cat", "fmt"}
+
+
+def _concrete(v, depth=0) -> bool:
+    if isinstance(v, _Sym):
+        return False
+    if depth > 6:
+        return False
+    if isinstance(v, (list, tuple, set, frozenset)):
+        return all(_concrete(x, depth + 1) for x in v)
+    if isinstance(v, dict):
+        return all(_concrete(k, depth + 1) and _concrete(x, depth + 1) for k, x in v.items())
+    return True
+
+
+def _mentions(v, target, depth=0) -> bool:
+    if v is target:
+        return True
+    if depth > 6:
+        return False
+    if isinstance(v, _Sym):
+        return any(_mentions(a, target, depth + 1) for a in v.args)
+    if isinstance(v, (list, tuple, set, frozenset)):
+        return any(_mentions(x, target, depth + 1) for x in v)
+    if isinstance(v, dict):
+        return any(_mentions(x, target, depth + 1) for x in v.values())
+    return False
+
+
+class _Oracle:
+    """Replays a prefix of branch decisions, then answers True; `taken` records every decision of the run."""
+
+    def __init__(self, pre):
+        self.pre = list(pre)
+        self.taken = []
+
+    def decide(self) -> bool:
+        i = len(self.taken)
+        v = self.pre[i] if i < len(self.pre) else True
+        self.taken.append(v)
+        return v
+
+
+def _all_paths(run, limit=64):
+    """Enumerate the paths of `run(oracle)` (depth-first over the decisions the runs ask for)."""
+    out, todo = [], [[]]
+    while todo:
+        pre = todo.pop()
+        o = _Oracle(pre)
+        out.append(run(o))
+        if len(out) > limit:
+            raise _Unsupported("too many paths")
+        for i in range(len(pre), len(o.taken)):
+            todo.append(o.taken[:i] + [False])
+    return out
+
+
+def _module_const_stable(mod, name: str) -> bool:
+    """`name` is bound exactly once at module level and never mutated / rebound anywhere in the module."""
+    if name not in mod.consts:
+        return False
+    hit = getattr(mod, "_c12_stable", None)
+    if hit is None:
+        hit = {}
+        try:
+            mod._c12_stable = hit
+        except Exception:
+            pass
+    if name in hit:
+        return hit[name]
+    binds = 0
+    ok = True
+    for n in ast.walk(mod.tree):
+        if isinstance(n, ast.Name) and n.id == name and isinstance(n.ctx, (ast.Store, ast.Del)):
+            binds += 1
+        elif isinstance(n, (ast.Subscript, ast.Attribute)) and isinstance(n.ctx, (ast.Store, ast.Del)) and isinstance(n.value, ast.Name) and n.value.id == name:
+            ok = False
+        elif isinstance(n, ast.Call) and isinstance(n.func, ast.Attribute) and isinstance(n.func.value, ast.Name) and n.func.value.id == name \
+                and n.func.attr in ("update", "pop", "popitem", "clear", "setdefault", "__setitem__", "__delitem__", "append", "extend", "insert", "remove", "add", "discard"):
+            ok = False
+        elif isinstance(n, ast.Global) and name in n.names:
+            ok = False
+    hit[name] = ok and binds == 1
+    return hit[name]
+
+
+class _Interp:
+    """Path-sensitive evaluator of straight-line/branching code over constants and symbolic values."""
+
+    def __init__(self, ctx, f, oracle):
+        self.ctx = ctx
+        self.f = f
+        self.mod = f.module
+        self.o = oracle
+        self.env = {}
+        self.events = []
+        self.guess_at = None  # index into events of the first branch taken on an unknown condition
+        self._busy = set()
+
+    # ------------------------------------------------------------------------------------------------ values
+    def unk(self, node=None):
+        return _Sym("unk", (src(node)[:60] if node is not None else "",))
+
+    def guess(self) -> bool:
+        if self.guess_at is None:
+            self.guess_at = len(self.events)
+        return self.o.decide()
+
+    def truth(self, v) -> bool:
+        if isinstance(v, _Sym):
+            t = self.sym_truth(v)
+            return self.guess() if t is None else t
+        try:
+            return bool(v)
+        except TypeError:  # a container holding symbolic values
+            return len(v) > 0
+
+    def sym_truth(self, v):
         return None
 
+    def escapes(self, values):
+        """An unmodelled operation received `values`: subclasses refuse when that loses track of a tracked object."""
 
-def run(ctx):
-    rep = ctx.rep
-    rep.explanation = (
-        "Static analysis of value_to_string / string_token_to_bytes in c2profile.py and of the STRING terminal: on the bytes "
-        "path the interpolated value passes the repr-based escaper (quote style pinned by a prepended double quote, slice "
-        "constants consistent with that prefix) and then the double-quote replacement on every path to the return; the "
-        "decoder's escape table is compared completely with the documented set and byte values; everything the encoder can "
-        "emit is in the decoder's table; the STRING regex is inspected on its parsed AST (opening quote, lazy body, closing "
-        "quote preceded by an even run of backslashes)."
-    )
-    rep.not_decided = ["the round trip for all byte strings (depends on CPython's repr)", "the 'exactly one token' claim over all inputs (regex matching semantics)"]
-    rep.trusted_base = ["CPython ast and repr(bytes) escaping rules", "re._parser", "lark grammar loader"]
-    r1(ctx)
-    r2(ctx)
-    r3(ctx)
-    r4(ctx)
+    def lookup(self, name: str):
+        if name in self.env:
+            return self.env[name]
+        return self.free_name(name)
+
+    def free_name(self, name: str):
+        return self.modconst(name)
+
+    def modconst(self, name: str):
+        if name in self._busy or not _module_const_stable(self.mod, name):
+            return _Sym("unk", (name,))
+        cache = self.mod.__dict__.setdefault("_c12_constvals", {})
+        if name not in cache:
+            self._busy.add(name)
+            try:
+                sub = _Interp(self.ctx, self.f, _Oracle([]))
+                sub._busy = self._busy
+                try:
+                    v = sub.ev(self.mod.consts[name])
+                except (_Unsupported, _Flow):
+                    v = _Sym("unk", (name,))
+                if sub.o.taken or sub.events:
+                    v = _Sym("unk", (name,))
+                cache[name] = v
+            finally:
+                self._busy.discard(name)
+        return cache[name]
+
+    # ------------------------------------------------------------------------------------------------ expressions
+    def ev(self, e):
+        m = getattr(self, "ev_" + type(e).__name__, None)
+        if m is None:
+            self.scan(e)
+            return self.unk(e)
+        return m(e)
+
+    def scan(self, e):
+        """An expression that is not evaluated: make sure it cannot touch a tracked object behind our back."""
+        vals = []
+        for n in ast.walk(e):
+            if isinstance(n, ast.Name) and isinstance(n.ctx, ast.Load) and n.id in self.env:
+                vals.append(self.env[n.id])
+        self.escapes(vals)
+
+    def ev_Constant(self, e):
+        return e.value
+
+    def ev_Name(self, e):
+        return self.lookup(e.id)
+
+    def ev_NamedExpr(self, e):
+        v = self.ev(e.value)
+        self.bind(e.target, v)
+        return v
+
+    def _elts(self, elts):
+        out = []
+        for x in elts:
+            if isinstance(x, ast.Starred):
+                v = self.ev(x.value)
+                if isinstance(v, (list, tuple)):
+                    out.extend(v)
+                else:
+                    self.escapes([v])
+                    return None
+            else:
+                out.append(self.ev(x))
+        return out
+
+    def ev_Tuple(self, e):
+        v = self._elts(e.elts)
+        return self.unk(e) if v is None else tuple(v)
+
+    def ev_List(self, e):
+        v = self._elts(e.elts)
+        return self.unk(e) if v is None else list(v)
+
+    def ev_Set(self, e):
+        v = self._elts(e.elts)
+        if v is None or not _concrete(v):
+            return self.unk(e)
+        try:
+            return set(v)
+        except TypeError:
+            return self.unk(e)
+
+    def ev_Dict(self, e):
+        out = {}
+        for k, v in zip(e.keys, e.values):
+            val = self.ev(v)
+            if k is None:
+                if isinstance(val, dict):
+                    out.update(val)
+                    continue
+                return self.unk(e)
+            key = self.ev(k)
+            if not _concrete(key):
+                return self.unk(e)
+            try:
+                out[key] = val
+            except TypeError:
+                return self.unk(e)
+        return out
+
+    def ev_UnaryOp(self, e):
+        v = self.ev(e.operand)
+        if isinstance(e.op, ast.Not):
+            return not self.truth(v)
+        if _concrete(v):
+            try:
+                if isinstance(e.op, ast.USub):
+                    return -v
+                if isinstance(e.op, ast.UAdd):
+                    return +v
+                if isinstance(e.op, ast.Invert):
+                    return ~v
+            except Exception:
+                pass
+        return self.unk(e)
+
+    def ev_BoolOp(self, e):
+        v = None
+        for x in e.values:
+            v = self.ev(x)
+            t = self.truth(v)
+            if isinstance(e.op, ast.And) and not t:
+                return v if not isinstance(v, _Sym) else False
+            if isinstance(e.op, ast.Or) and t:
+                return v if not isinstance(v, _Sym) else True
+        return v if not isinstance(v, _Sym) else isinstance(e.op, ast.And)
+
+    def ev_IfExp(self, e):
+        return self.ev(e.body) if self.truth(self.ev(e.test)) else self.ev(e.orelse)
+
+    def ev_Compare(self, e):
+        left = self.ev(e.left)
+        res = True
+        for op, c in zip(e.ops, e.comparators):
+            right = self.ev(c)
+            r = self.compare(op, left, right)
+            if isinstance(r, _Sym):
+                # the remaining comparators are still evaluated for their effects by Python only when this one holds;
+                # an unknown outcome is resolved by the caller's truth() - comparison chains are rare enough to stop here
+                return r
+            if not r:
+                return False
+            res = r
+            left = right
+        return res
+
+    def compare(self, op, a, b):
+        if isinstance(op, (ast.Is, ast.IsNot)):
+            for x, y in ((a, b), (b, a)):
+                if y is None and isinstance(x, _Sym):
+                    if x.tag in _NOT_NONE_TAGS or x.typ is not None:
+                        return isinstance(op, ast.IsNot)
+                    return _Sym("unk", ("is None",))
+            if not isinstance(a, _Sym) and not isinstance(b, _Sym) and (a is None or b is None or isinstance(a, bool) or isinstance(b, bool)):
+                return _CMPOPS[type(op)](a, b)
+            return _Sym("unk", ("is",))
+        if _concrete(a) and _concrete(b):
+            try:
+                return bool(_CMPOPS[type(op)](a, b))
+            except Exception:
+                return _Sym("unk", ("cmp",))
+        if isinstance(op, (ast.In, ast.NotIn)) and _concrete(a) and isinstance(b, dict):
+            try:
+                return (a in b) == isinstance(op, ast.In)
+            except TypeError:
+                pass
+        return self.sym_compare(op, a, b)
+
+    def sym_compare(self, op, a, b):
+        return _Sym("unk", ("cmp",))
+
+    def ev_BinOp(self, e):
+        a, b = self.ev(e.left), self.ev(e.right)
+        if _concrete(a) and _concrete(b) and type(e.op) in _BINOPS:
+            try:
+                if isinstance(e.op, (ast.Mult, ast.LShift)) and isinstance(b, int) and abs(b) > 4096:
+                    return self.unk(e)
+                return _BINOPS[type(e.op)](a, b)
+            except Exception:
+                return self.unk(e)
+        if isinstance(e.op, ast.Add) and isinstance(a, list) and isinstance(b, list):
+            return a + b
+        if isinstance(e.op, ast.Add) and isinstance(a, tuple) and isinstance(b, tuple):
+            return a + b
+        r = self.sym_binop(e, a, b)
+        if r is _NOHOOK:
+            self.escapes([a, b])
+            return self.unk(e)
+        return r
+
+    def sym_binop(self, e, a, b):
+        return _NOHOOK
+
+    def ev_Attribute(self, e):
+        v = self.ev(e.value)
+        self.escapes([v])
+        return self.unk(e)
+
+    def ev_Subscript(self, e):
+        base = self.ev(e.value)
+        if isinstance(e.slice, ast.Slice):
+            idx = tuple(self.ev(x) if x is not None else None for x in (e.slice.lower, e.slice.upper, e.slice.step))
+            is_slice = True
+        else:
+            idx = self.ev(e.slice)
+            is_slice = False
+        if not isinstance(base, _Sym) and _concrete(idx):
+            try:
+                return base[slice(*idx)] if is_slice else base[idx]
+            except KeyError:
+                raise _Flow("raise", "KeyError")
+            except IndexError:
+                raise _Flow("raise", "IndexError")
+            except Exception:
+                return self.unk(e)
+        r = self.sym_subscript(e, base, idx, is_slice)
+        if r is _NOHOOK:
+            self.escapes([base, idx])
+            return self.unk(e)
+        return r
+
+    def sym_subscript(self, e, base, idx, is_slice):
+        return _NOHOOK
+
+    def ev_JoinedStr(self, e):
+        parts = []
+        for p in e.values:
+            if isinstance(p, ast.Constant):
+                parts.append(p.value)
+                continue
+            v = self.ev(p.value)
+            spec = self.ev(p.format_spec) if p.format_spec is not None else None
+            parts.append(self.formatted(p, v, p.conversion, spec))
+        if all(isinstance(p, str) for p in parts):
+            return "".join(parts)
+        return self.sym_joined(e, parts)
+
+    def formatted(self, node, v, conversion, spec):
+        if _concrete(v) and (spec is None or isinstance(spec, str)):
+            try:
+                if conversion == 114:
+                    v = repr(v)
+                elif conversion == 115:
+                    v = str(v)
+                elif conversion == 97:
+                    v = ascii(v)
+                return format(v, spec or "")
+            except Exception:
+                pass
+        return self.sym_formatted(node, v, conversion, spec)
+
+    def sym_formatted(self, node, v, conversion, spec):
+        self.escapes([v])
+        return self.unk(node)
+
+    def sym_joined(self, e, parts):
+        return self.unk(e)
+
+    def ev_Call(self, e):
+        r = self.call_hook(e)
+        if r is not _NOHOOK:
+            return r
+        if any(isinstance(a, ast.Starred) for a in e.args) or any(k.arg is None for k in e.keywords):
+            self.scan(e)
+            return self.unk(e)
+        fn = e.func
+        if isinstance(fn, ast.Attribute):
+            recv = self.ev(fn.value)
+            args = [self.ev(a) for a in e.args]
+            kws = {k.arg: self.ev(k.value) for k in e.keywords}
+            return self.method(e, recv, fn.attr, args, kws)
+        if not isinstance(fn, ast.Name):
+            self.scan(e)
+            return self.unk(e)
+        args = [self.ev(a) for a in e.args]
+        kws = {k.arg: self.ev(k.value) for k in e.keywords}
+        return self.function(e, fn.id, args, kws)
+
+    def call_hook(self, e):
+        return _NOHOOK
+
+    def method(self, e, recv, attr, args, kws):
+        if isinstance(recv, list) and attr in ("append", "extend", "insert", "clear", "pop") and not kws:
+            try:
+                return getattr(recv, attr)(*args)
+            except Exception:
+                return self.unk(e)
+        if not isinstance(recv, _Sym) and _concrete(recv) and _concrete(args) and _concrete(kws):
+            for t, names in _PURE_METHODS.items():
+                if type(recv) is t and attr in names:
+                    try:
+                        return getattr(recv, attr)(*args, **kws)
+                    except Exception:
+                        return self.unk(e)
+        if isinstance(recv, dict) and attr == "get" and args and _concrete(args[0]) and not kws:
+            try:
+                return recv.get(*args)
+            except Exception:
+                return self.unk(e)
+        r = self.sym_method(e, recv, attr, args, kws)
+        if r is _NOHOOK:
+            self.escapes([recv] + list(args) + list(kws.values()))
+            return self.unk(e)
+        return r
+
+    def sym_method(self, e, recv, attr, args, kws):
+        return _NOHOOK
+
+    def function(self, e, name, args, kws):
+        if name in self.env or (name in self.mod.consts) or (name in self.mod.funcs):
+            self.escapes(list(args) + list(kws.values()))
+            return self.unk(e)
+        if name == "isinstance" and len(args) == 2:
+            r = self.isinstance_of(e, args[0], e.args[1])
+            if r is not None:
+                return r
+            return self.unk(e)
+        if name.endswith("MappingProxyType") and len(args) == 1 and not kws:
+            return args[0]
+        if _concrete(args) and _concrete(kws):
+            try:
+                if name in ("ord", "chr", "len", "str", "bytes", "list", "tuple", "set", "frozenset", "bool", "repr", "ascii", "hex", "min", "max", "abs", "sorted", "bytearray") and not kws:
+                    import builtins
+
+                    if name in ("bytes", "bytearray", "str") and args and isinstance(args[0], int):
+                        return self.unk(e)
+                    return getattr(builtins, name)(*args)
+                if name == "int" and not kws:
+                    return int(*args)
+                if name == "dict":
+                    return dict(*args, **kws)
+                if name == "range" and not kws and all(isinstance(a, int) and abs(a) <= 64 for a in args):
+                    return tuple(range(*args))
+            except Exception:
+                return self.unk(e)
+        if name == "dict" and not args:
+            return dict(kws)
+        if name in ("list", "tuple") and len(args) == 1 and isinstance(args[0], (list, tuple)):
+            return list(args[0]) if name == "list" else tuple(args[0])
+        r = self.sym_function(e, name, args, kws)
+        if r is _NOHOOK:
+            self.escapes(list(args) + list(kws.values()))
+            return self.unk(e)
+        return r
+
+    def sym_function(self, e, name, args, kws):
+        return _NOHOOK
+
+    def isinstance_of(self, e, value, types_node):
+        return None
+
+    # ------------------------------------------------------------------------------------------------ statements
+    def bind(self, target, v):
+        if isinstance(target, ast.Name):
+            self.env[target.id] = v
+            return
+        if isinstance(target, (ast.Tuple, ast.List)) and isinstance(v, (list, tuple)) and len(v) == len(target.elts) and not any(isinstance(t, ast.Starred) for t in target.elts):
+            for t, x in zip(target.elts, v):
+                self.bind(t, x)
+            return
+        if isinstance(target, (ast.Tuple, ast.List)):
+            self.escapes([v])
+            for n in ast.walk(target):
+                if isinstance(n, ast.Name):
+                    self.env[n.id] = self.unk(target)
+            return
+        self.store(target, v)
+
+    def store(self, target, v):
+        raise _Unsupported(f"assignment to `{src(target)}`")
+
+    def block(self, stmts):
+        for st in stmts:
+            self.stmt(st)
+
+    def stmt(self, st):
+        m = getattr(self, "st_" + type(st).__name__, None)
+        if m is None:
+            raise _Unsupported(f"statement `{type(st).__name__}`")
+        m(st)
+
+    def st_Expr(self, st):
+        self.ev(st.value)
+
+    def st_Pass(self, st):
+        pass
+
+    def st_Import(self, st):
+        pass
+
+    st_ImportFrom = st_Global = st_Nonlocal = st_Import
+
+    def st_Assert(self, st):
+        self.scan(st.test)
+
+    def st_Assign(self, st):
+        v = self.ev(st.value)
+        for t in st.targets:
+            self.bind(t, v)
+
+    def st_AnnAssign(self, st):
+        if st.value is not None:
+            self.bind(st.target, self.ev(st.value))
+
+    def st_AugAssign(self, st):
+        if not isinstance(st.target, ast.Name):
+            raise _Unsupported(f"augmented assignment to `{src(st.target)}`")
+        cur = self.lookup(st.target.id)
+        rhs = self.ev(st.value)
+        self.env[st.target.id] = self.augassign(st, cur, rhs)
+
+    def augassign(self, st, cur, rhs):
+        if _concrete(cur) and _concrete(rhs) and type(st.op) in _BINOPS:
+            try:
+                return _BINOPS[type(st.op)](cur, rhs)
+            except Exception:
+                return self.unk(st)
+        if isinstance(st.op, ast.Add) and isinstance(cur, list) and isinstance(rhs, (list, tuple)):
+            return cur + list(rhs)
+        fake = ast.BinOp(left=st.target, op=st.op, right=st.value)
+        r = self.sym_binop(fake, cur, rhs)
+        if r is _NOHOOK:
+            self.escapes([cur, rhs])
+            return self.unk(st)
+        return r
+
+    def st_If(self, st):
+        self.block(st.body if self.truth(self.ev(st.test)) else st.orelse)
+
+    def st_Return(self, st):
+        raise _Flow("return", self.ev(st.value) if st.value is not None else None)
+
+    def st_Raise(self, st):
+        if st.exc is not None:
+            self.scan(st.exc)
+        raise _Flow("raise", raise_class(st))
+
+    def st_Continue(self, st):
+        raise _Flow("continue")
+
+    def st_Break(self, st):
+        raise _Flow("break")
+
+    def st_For(self, st):
+        seq = self.ev(st.iter)
+        if isinstance(seq, _Sym) or not isinstance(seq, (list, tuple, str, bytes)) or len(seq) > 16:
+            raise _Unsupported(f"loop over `{src(st.iter)}`")
+        for x in seq:
+            self.bind(st.target, x)
+            try:
+                self.block(st.body)
+            except _Flow as fl:
+                if fl.kind == "continue":
+                    continue
+                if fl.kind == "break":
+                    return
+                raise
+        self.block(st.orelse)
+
+    def st_Match(self, st):
+        subj = self.ev(st.subject)
+        for case in st.cases:
+            if self.match(case.pattern, subj) and (case.guard is None or self.truth(self.ev(case.guard))):
+                self.block(case.body)
+                return
+
+    def match(self, pat, subj) -> bool:
+        if isinstance(pat, ast.MatchValue):
+            v = self.ev(pat.value)
+            r = self.compare(ast.Eq(), subj, v)
+            return self.truth(r)
+        if isinstance(pat, ast.MatchSingleton):
+            return self.truth(self.compare(ast.Is(), subj, pat.value))
+        if isinstance(pat, ast.MatchOr):
+            return any(self.match(p, subj) for p in pat.patterns)
+        if isinstance(pat, ast.MatchAs):
+            if pat.pattern is not None and not self.match(pat.pattern, subj):
+                return False
+            if pat.name:
+                self.env[pat.name] = subj
+            return True
+        raise _Unsupported(f"match pattern `{type(pat).__name__}`")
+
+
+# ============================================================================================ encoder: value_to_string
+class _Enc(_Interp):
+    """Symbolic evaluation of the encoder under an assumption on the argument's type ('bytes' or 'str')."""
+
+    def __init__(self, ctx, f, oracle, ptype):
+        _Interp.__init__(self, ctx, f, oracle)
+        self.param = _Sym("param", (), ptype)
+        ps = params(f.node)
+        for p in ps:
+            self.env[p] = _Sym("unk", (p,))
+        self.env[ps[0]] = self.param
+
+    @staticmethod
+    def typ(v):
+        if isinstance(v, _Sym):
+            return v.typ
+        return type(v).__name__
+
+    def isinstance_of(self, e, value, types_node):
+        t = self.typ(value)
+        if t is None:
+            return None
+        nodes = types_node.elts if isinstance(types_node, (ast.Tuple, ast.List)) else [types_node]
+        names = [(dotted(n) or "?").split(".")[-1] for n in nodes]
+        if "?" in names:
+            return None
+        if t in names:
+            return True
+        if set(names) <= {"str", "bytes", "bytearray", "memoryview", "int", "float", "bool", "list", "tuple", "dict", "NoneType"}:
+            return False
+        return None
+
+    def sym_binop(self, e, a, b):
+        if isinstance(e.op, ast.Add):
+            ta, tb = self.typ(a), self.typ(b)
+            t = ta if ta in ("str", "bytes") else tb if tb in ("str", "bytes") else None
+            if t is not None:
+                return _Sym("cat", (a, b), t)
+        if isinstance(e.op, ast.Mod) and isinstance(a, str) and a.count("%") == 1 and "%s" in a:
+            x = b[0] if isinstance(b, tuple) and len(b) == 1 else b
+            if isinstance(x, _Sym):
+                pre, post = a.split("%s")
+                return _Sym("cat", (pre, _Sym("cat", (self.as_str(x), post), "str")), "str")
+        return _NOHOOK
+
+    def as_str(self, v):
+        """str(v) / format(v)"""
+        if isinstance(v, _Sym):
+            if v.typ == "str":
+                return v
+            if v.typ == "bytes":
+                return _Sym("fmt", (v,), "str")  # str(bytes) is its repr, *with* the b'' delimiters: kept distinct from repr+slice
+            return _Sym("fmt", (v,), "str")
+        return str(v)
+
+    def sym_formatted(self, node, v, conversion, spec):
+        if spec not in (None, ""):
+            return _Sym("opaque", (src(node)[:60], v), "str")
+        if conversion in (114, 97):
+            return _Sym("repr", (v,), "str")
+        return self.as_str(v)
+
+    def sym_joined(self, e, parts):
+        out = parts[-1]
+        for p in reversed(parts[:-1]):
+            out = _Sym("cat", (p, out), "str")
+        return out
+
+    def sym_subscript(self, e, base, idx, is_slice):
+        if isinstance(base, _Sym) and base.tag != "unk" and is_slice and _concrete(idx):
+            return _Sym("slice", (base,) + tuple(idx), base.typ)
+        if isinstance(base, _Sym) and base.tag != "unk":
+            return _Sym("opaque", (src(e)[:60], base), None)
+        return _NOHOOK
+
+    def call_hook(self, e):
+        name = dotted(e.func) or ""
+        if name in ("re.sub", "re.subn") and len(e.args) >= 3 and not any(isinstance(a, ast.Starred) for a in e.args):
+            pat, rep, subject = (self.ev(a) for a in e.args[:3])
+            extra = e.args[3:] or e.keywords
+            if isinstance(subject, _Sym) and subject.tag != "unk":
+                lit = _literal_regex(pat) if not extra and name == "re.sub" else None
+                rl = _literal_template(rep)
+                if lit is not None and rl is not None:
+                    return _Sym("rep", (subject, lit, rl), "str")
+                return _Sym("condrep", (subject, repr(pat), repr(rep)), "str")
+        return _NOHOOK
+
+    def sym_method(self, e, recv, attr, args, kws):
+        if isinstance(recv, _Sym) and recv.tag != "unk":
+            if attr == "replace" and recv.typ == "str" and len(args) >= 2 and isinstance(args[0], str) and isinstance(args[1], str):
+                if len(args) == 2 and not kws:
+                    return _Sym("rep", (recv, args[0], args[1]), "str")
+                return _Sym("condrep", (recv, repr(args[0]), repr(args[1])), "str")
+            keeps = recv.typ == "str" and attr in ("translate", "strip", "lstrip", "rstrip", "lower", "upper", "expandtabs", "removeprefix", "removesuffix", "format", "join", "casefold", "title", "swapcase")
+            return _Sym("opaque", (src(e)[:60], recv), "str" if keeps else None)
+        if isinstance(recv, str) and attr == "join" and len(args) == 1 and isinstance(args[0], (list, tuple)) and args[0] and not kws:
+            items = list(args[0])
+            if all(self.typ(x) == "str" for x in items):
+                out = items[-1]
+                for x in reversed(items[:-1]):
+                    out = _Sym("cat", (x, _Sym("cat", (recv, out), "str") if recv else out), "str")
+                return out
+        if isinstance(recv, str) and attr == "format" and len(args) == 1 and not kws and isinstance(args[0], _Sym):
+            for ph in ("{}", "{0}", "{0!s}", "{!s}"):
+                if recv.count(ph) == 1 and recv.replace(ph, "").count("{") == 0 and recv.replace(ph, "").count("}") == 0:
+                    pre, post = recv.split(ph)
+                    return _Sym("cat", (pre, _Sym("cat", (self.as_str(args[0]), post), "str")), "str")
+        syms = [a for a in list(args) + list(kws.values()) if isinstance(a, _Sym) and a.tag != "unk"]
+        if syms:
+            return _Sym("opaque", (src(e)[:60],) + tuple(syms), None)
+        return _NOHOOK
+
+    def sym_function(self, e, name, args, kws):
+        if name in ("repr", "ascii") and len(args) == 1 and isinstance(args[0], _Sym) and args[0].tag != "unk":
+            return _Sym("repr", (args[0],), "str")
+        if name == "str" and len(args) == 1 and isinstance(args[0], _Sym) and args[0].tag != "unk" and not kws:
+            if args[0].typ == "bytes":
+                return _Sym("repr", (args[0],), "str")  # str(b) == repr(b) for bytes
+            return self.as_str(args[0])
+        if name in ("bytes", "bytearray") and len(args) == 1 and isinstance(args[0], _Sym) and args[0].typ == "bytes" and not kws:
+            return args[0]
+        syms = [a for a in list(args) + list(kws.values()) if isinstance(a, _Sym) and a.tag != "unk"]
+        if syms:
+            return _Sym("opaque", (src(e)[:60],) + tuple(syms), None)
+        return _NOHOOK
+
+
+def _literal_regex(pat):
+    """The string a regular expression matches when it is a plain sequence of literal characters, else None."""
+    if not isinstance(pat, str):
+        return None
+    import re._constants as sc
+    import re._parser as sp
+
+    try:
+        parsed = list(sp.parse(pat))
+    except Exception:
+        return None
+    if not parsed or any(op is not sc.LITERAL for op, _ in parsed):
+        return None
+    return "".join(chr(av) for _, av in parsed)
+
+
+def _literal_template(rep):
+    """The text a re.sub replacement template inserts when it has no group references, else None."""
+    if not isinstance(rep, str):
+        return None
+    out, i = [], 0
+    while i < len(rep):
+        c = rep[i]
+        if c == "\\":
+            if i + 1 >= len(rep):
+                return None
+            n = rep[i + 1]
+            simple = {"\\": "\\", "n": "\n", "r": "\r", "t": "\t"}
+            if n not in simple:
+                return None
+            out.append(simple[n])
+            i += 2
+        else:
+            out.append(c)
+            i += 1
+    return "".join(out)
+
+
+def _flatten(v):
+    """Concatenation term -> list of parts (adjacent constants merged)."""
+    parts = []
+
+    def go(x):
+        if isinstance(x, _Sym) and x.tag == "cat":
+            for a in x.args:
+                go(a)
+        elif isinstance(x, (str, bytes)) and parts and type(parts[-1]) is type(x):
+            parts[-1] = parts[-1] + x
+        elif isinstance(x, (str, bytes)) and len(x) == 0:
+            pass
+        else:
+            parts.append(x)
+
+    go(v)
+    return parts
+
+
+def _show(v) -> str:
+    if isinstance(v, _Sym):
+        if v.tag == "param":
+            return "value"
+        if v.tag == "cat":
+            return " + ".join(_show(p) for p in _flatten(v))
+        if v.tag == "slice":
+            lo, hi, st = v.args[1:4]
+            return f"{_show(v.args[0])}[{'' if lo is None else lo}:{'' if hi is None else hi}{'' if st is None else ':' + str(st)}]"
+        if v.tag == "rep":
+            return f"{_show(v.args[0])}.replace({v.args[1]!r}, {v.args[2]!r})"
+        if v.tag == "condrep":
+            return f"{_show(v.args[0])}.<conditional replace {v.args[1]} -> {v.args[2]}>"
+        if v.tag == "repr":
+            return f"repr({_show(v.args[0])})"
+        if v.tag == "fmt":
+            return f"str({_show(v.args[0])})"
+        if v.tag == "opaque":
+            return f"<{v.args[0]}>"
+        return repr(v)
+    return repr(v)
+
+
+def _peel(x):
+    """Unary string transformations applied on top of a core term: returns (layers outermost first, core)."""
+    layers = []
+    while isinstance(x, _Sym):
+        if x.tag in ("rep", "condrep"):
+            layers.append(x)
+            x = x.args[0]
+        elif x.tag == "fmt" and isinstance(x.args[0], _Sym) and (x.args[0].typ == "str" or x.args[0].tag == "opaque"):
+            x = x.args[0]
+        elif x.tag == "opaque" and len([a for a in x.args[1:] if isinstance(a, _Sym)]) == 1:
+            layers.append(x)
+            x = [a for a in x.args[1:] if isinstance(a, _Sym)][0]
+        else:
+            break
+    return layers, x
+
+
+def _is_raw(x) -> bool:
+    """the parameter itself, possibly only str()-formatted"""
+    return isinstance(x, _Sym) and (x.tag == "param" or (x.tag == "fmt" and _is_raw(x.args[0])))
+
+
+def _net_slice(x):
+    """slice layers on top of a term -> (lo, hi, inner) with lo >= 0 counted from the start, hi <= 0 from the end; None when not of that form."""
+    lo, hi = 0, 0
+    while isinstance(x, _Sym) and x.tag == "slice":
+        inner, a, b, st = x.args
+        if st not in (None, 1):
+            return None
+        a = 0 if a is None else a
+        b = 0 if b is None else b
+        if not (isinstance(a, int) and isinstance(b, int)) or isinstance(a, bool) or a < 0 or b > 0:
+            return None
+        # slices are applied inside-out: this (outer) slice acts on the result of the inner ones - offsets simply add
+        lo += a
+        hi += b
+        x = inner
+    return lo, hi, x
+
+
+def _esc_len(b: bytes) -> int:
+    """Length of the escaped text of `b` inside a single-quoted bytes repr."""
+    return len(repr(b'"' + b)) - 4
+
+
+def _encoder_paths(ctx, f, ptype):
+    def run(o):
+        it = _Enc(ctx, f, o, ptype)
+        try:
+            it.block(f.node.body)
+            res = ("return", None)
+        except _Flow as fl:
+            res = (fl.kind, fl.value)
+        return res, it.guess_at is not None
+
+    return _all_paths(run)
+
+
+def _verdict(ctx, rule, kind, where, text, bad, und, ok_detail, node=None, nontrivial=True):
+    """bad: reasons the located construct is wrong (-> violated); und: reasons it could not be judged (-> undecided)."""
+    if bad:
+        ctx.ob(rule, kind, where, text, False, "; ".join(dict.fromkeys(bad)), node, nontrivial=nontrivial)
+    elif und:
+        ctx.undecided(rule, kind, where, text, "; ".join(dict.fromkeys(und)), node)
+    else:
+        ctx.ob(rule, kind, where, text, True, ok_detail, node, nontrivial=nontrivial)
 
 
 def r1(ctx):
     f = ctx.repo.func("c2profile.value_to_string")
-    cfg = ctx.cfg(f)
-    fv = FuncView.of(f.node)
-    p = params(f.node)[0]
-    esc = None
-    for st in statements(f.node):
-        if isinstance(st, ast.Assign) and dotted(st.targets[0]) == p:
-            v = st.value
-            if isinstance(v, ast.Subscript) and isinstance(v.value, ast.Call) and dotted(v.value.func) == "repr":
-                esc = (st, v)
-    if esc is None:
-        ctx.ob("R1", "TAINT", f, "escaper", False, "no `value = repr(<bytes>)[a:b]` escaper on the bytes path")
+    try:
+        pb = _encoder_paths(ctx, f, "bytes")
+        ps = _encoder_paths(ctx, f, "str")
+    except _Unsupported as e:
+        for text in ("bytes escaper", "quote replacement after escaper", "quote replacement for str", "return f'\"{value}\"'"):
+            ctx.undecided("R1", "TAINT", f, text, f"value_to_string is not understood by the symbolic evaluation ({e})")
         return
-    est, ev = esc
-    arg = ev.value.args[0]
-    prefix = None
-    if isinstance(arg, ast.BinOp) and isinstance(arg.op, ast.Add) and isinstance(_c(arg.left), bytes) and dotted(arg.right) == p:
-        prefix = _c(arg.left)
-    lo, hi = _c(ev.slice.lower) if isinstance(ev.slice, ast.Slice) else None, _c(ev.slice.upper) if isinstance(ev.slice, ast.Slice) else None
-    bytes_guard = guarded_by(ctx, f, est, lambda t: True if isinstance(t, ast.Call) and dotted(t.func) == "isinstance" and dotted(t.args[0]) == p and "bytes" in src(t.args[1]) else None)
-    ok = prefix == b'"' and lo == 2 + len(prefix or b"") and hi == -1 and bytes_guard
-    ctx.ob("R1", "TAINT", f, src(est), bool(ok),
-           f"bytes are escaped with repr(); prefix {prefix!r} pins the single-quote repr style (required b'\"'); slice [{lo}:{hi}] strips exactly b'\" and the closing quote (required [3:-1]); under isinstance(value, bytes)={bytes_guard}", est)
-    # the double-quote replacement lies on every path from the escaper to the return
-    reps = []
-    for st in statements(f.node):
-        if isinstance(st, ast.Assign) and dotted(st.targets[0]) == p and isinstance(st.value, ast.Call) and isinstance(st.value.func, ast.Attribute) and st.value.func.attr == "replace" \
-                and dotted(st.value.func.value) == p and len(st.value.args) == 2:
-            reps.append((st, _c(st.value.args[0]), _c(st.value.args[1])))
-    q = [st for st, a, b in reps if a == '"' and b == '\\"']
-    spec = specialise(cfg, {f"isinstance({p}, str)": True})
-    ok = bool(q) and spec.all_paths_pass(cfg.node(est), EXIT, [cfg.node(q[0])]) and not cfg.reaches(cfg.node(q[0]), cfg.node(est))
-    ctx.ob("R1", "TAINT", f, "quote replacement after escaper", ok,
-           "every path from the escaper to the return replaces `\"` by `\\\"`, after the escaping" if ok else "a bytes-derived value can reach the return without the double-quote replacement (or it runs before the escaper)")
-    # a str value gets the same replacement
-    spec_str = specialise(cfg, {f"isinstance({p}, bytes)": False, f"isinstance({p}, str)": True})
-    ok = bool(q) and spec_str.all_paths_pass(ENTRY, EXIT, [cfg.node(q[0])])
-    ctx.ob("R1", "TAINT", f, "quote replacement for str", ok, "str values get their double quotes escaped on every path" if ok else "str values can reach the return unescaped")
-    sq = [st for st, a, b in reps if a == "\\'" and b == "'"]
-    order_ok = bool(sq) and bool(q) and cfg.dominates(cfg.node(q[0]), cfg.node(sq[0]))
-    ctx.ob("R1", "TAINT", f, "\\' unescaped last", order_ok, "the single-quote un-escape follows the double-quote escape" if order_ok else "single-quote handling missing or before the double-quote escape", nontrivial=False)
-    rets = cfg.return_stmts()
-    ok = len(rets) == 1 and isinstance(rets[0].value, ast.JoinedStr)
-    if ok:
-        parts = rets[0].value.values
-        ok = len(parts) == 3 and is_const(parts[0], '"') and is_const(parts[2], '"') and isinstance(parts[1], ast.FormattedValue) and dotted(parts[1].value) == p and parts[1].conversion == -1
-    ctx.ob("R1", "TAINT", f, "return f'\"{value}\"'", bool(ok), "the literal is the escaped value between two double quotes" if ok else f"return value is {src(rets[0].value) if rets else None}")
+
+    esc_bad, esc_und, esc_seen = [], [], []
+    q_bad, q_und = [], []
+    o_bad, o_und, o_seen = [], [], []
+    ret_bad, ret_und = [], []
+    for (kind, val), guessed in pb:
+        core = _literal_body(kind, val, guessed, ret_bad, ret_und)
+        if core is None:
+            continue
+        layers, x = _peel(core)
+        # ---- the escaper: repr(<bytes containing a double quote> + value) with the delimiters and the pin sliced off
+        ns = _net_slice(x)
+        mixed = ns is not None and bool(_peel(ns[2])[0])  # replacements *below* the slice: offsets depend on the data
+        if _is_raw(x):
+            (esc_und if guessed else esc_bad).append("the bytes value reaches the literal without the repr-based escaper" + (" on a condition that is not understood" if guessed else ""))
+        elif ns is None:
+            esc_und.append(f"the slice applied to the escaped text is not a constant [a:-b] slice: {_show(x)}")
+        else:
+            lo, hi, inner = ns
+            if isinstance(inner, _Sym) and inner.tag == "repr":
+                parts = _flatten(inner.args[0])
+                i = [k for k, p in enumerate(parts) if isinstance(p, _Sym) and p.tag == "param"]
+                if len(i) == 1 and all(isinstance(p, bytes) for k, p in enumerate(parts) if k != i[0]) and len(parts) <= 3:
+                    pre = b"".join(parts[: i[0]])
+                    post = b"".join(parts[i[0] + 1:])
+                    pinned = b'"' in pre + post
+                    need_lo, need_hi = 2 + _esc_len(pre), -1 - _esc_len(post)
+                    desc = f"repr({(repr(pre) + ' + ') if pre else ''}value{(' + ' + repr(post)) if post else ''})[{lo}:{hi if hi else ''}]"
+                    esc_seen.append(desc)
+                    if not pinned:
+                        esc_bad.append(f"{desc}: nothing pins repr() to the single-quote style (a b'\"' must be concatenated to the value), so a value with ' and without \" is delimited by double quotes and its ' stay unescaped")
+                    elif (lo, hi) != (need_lo, need_hi):
+                        esc_bad.append(f"{desc}: the slice must strip exactly b' + the pin and the closing quote, i.e. [{need_lo}:{need_hi}]")
+                else:
+                    esc_und.append(f"argument of repr() is not <constant> + value: {_show(inner.args[0])}")
+            elif _is_raw(inner):
+                (esc_und if guessed else esc_bad).append("the bytes value reaches the literal without the repr-based escaper" + (" on a condition that is not understood" if guessed else ""))
+            else:
+                esc_und.append(f"the bytes value is escaped by something other than repr(): {_show(inner)}")
+        # ---- the double-quote replacement is applied to the escaped text
+        reps = [l for l in layers if l.tag == "rep"]
+        if any(l.args[1] == '"' and l.args[2] == '\\"' for l in reps):
+            pass
+        elif any(l.args[1] == '"' for l in reps):
+            q_bad.append(f"the double quote is replaced by {[l.args[2] for l in reps if l.args[1] == chr(34)][0]!r}, not by backslash + quote")
+        elif any(l.tag == "condrep" for l in layers):
+            c = [l for l in layers if l.tag == "condrep"][0]
+            q_bad.append(f"double quotes are only replaced conditionally ({c.args[1]} -> {c.args[2]}): a quote the condition skips ends the literal early")
+        elif any(l.tag == "opaque" for l in layers):
+            q_und.append(f"the escaped text passes through {_show([l for l in layers if l.tag == 'opaque'][0])}, which is not understood")
+        elif mixed:
+            q_und.append(f"replacements are applied before the delimiters are sliced off: {_show(x)}")
+        elif guessed:
+            q_und.append("a path on a condition that is not understood returns the escaped text without the double-quote replacement")
+        else:
+            q_bad.append("a bytes-derived value can reach the return without the double-quote replacement: " + _show(val))
+        # ---- any other rewriting of the escaped text (repr output is printable ASCII, backslashes only in escape pairs)
+        for l in layers:
+            if l.tag == "rep" and (l.args[1], l.args[2]) not in (('"', '\\"'), ("\\'", "'")) and l.args[1] != '"':
+                a, b = l.args[1], l.args[2]
+                o_seen.append((a, b))
+                if a == "\\'":
+                    o_bad.append(f"the escaped single quote \\' is rewritten to {b!r} (only the plain quote keeps the byte)")
+                elif a and all(0x20 <= ord(ch) <= 0x7E for ch in a):
+                    o_und.append(f"the escaped text is additionally rewritten ({a!r} -> {b!r}); not known to keep the bytes")
+            elif l.tag == "rep" and (l.args[1], l.args[2]) == ("\\'", "'"):
+                o_seen.append(("\\'", "'"))
+    if not pb:
+        esc_und.append("no path")
+    _verdict(ctx, "R1", "TAINT", f, "bytes escaper", esc_bad, esc_und,
+             f"bytes are escaped with {', '.join(dict.fromkeys(esc_seen))}: the constant pins repr() to the single-quote style and the slice strips exactly b' + pin and the closing quote")
+    _verdict(ctx, "R1", "TAINT", f, "quote replacement after escaper", q_bad, q_und, "on every path the escaped text has `\"` replaced by `\\\"` before it is put between the quotes")
+    _verdict(ctx, "R1", "TAINT", f, "\\' un-escape / other rewriting", o_bad, o_und,
+             f"replacements applied to the escaped text besides the quote escape: {sorted(set(o_seen))} (\\' -> ' commutes with the quote escape; others cannot match repr output)", nontrivial=False)
+
+    s_bad, s_und = [], []
+    for (kind, val), guessed in ps:
+        core = _literal_body(kind, val, guessed, ret_bad, ret_und)
+        if core is None:
+            continue
+        layers, x = _peel(core)
+        reps = [l for l in layers if l.tag == "rep"]
+        if any(l.args[1] == '"' and l.args[2] == '\\"' for l in reps):
+            continue
+        if any(l.args[1] == '"' for l in reps):
+            s_bad.append("the double quote of a str value is not replaced by backslash + quote")
+        elif any(l.tag == "condrep" for l in layers):
+            s_bad.append("double quotes of a str value are only replaced conditionally")
+        elif any(l.tag == "opaque" for l in layers) or guessed or not (isinstance(x, _Sym) and x.tag == "param"):
+            s_und.append(f"str path not understood: {_show(val)}")
+        else:
+            s_bad.append("str values can reach the return with unescaped double quotes: " + _show(val))
+    _verdict(ctx, "R1", "TAINT", f, "quote replacement for str", s_bad, s_und, "str values get their double quotes escaped on every path")
+    _verdict(ctx, "R1", "TAINT", f, "return f'\"{value}\"'", ret_bad, ret_und, "on every path the literal is the escaped value between two double quotes")
 
 
-def _decoder_table(ctx):
-    f = ctx.repo.func("c2profile.string_token_to_bytes")
-    table = {}
-    var = None
-    for st in statements(f.node):
-        if isinstance(st, ast.If):
-            for l, op, r in compare_parts(st.test):
-                if isinstance(op, ast.Eq) and isinstance(_c(r), str) and len(_c(r)) == 1 and isinstance(l, ast.Name) and l.id != "c":
-                    letter = _c(r)
-                    apps = [c for s in st.body for c in ast.walk(s) if isinstance(c, ast.Call) and isinstance(c.func, ast.Attribute) and c.func.attr == "append"]
-                    table[letter] = (st, apps)
-                    var = l.id
-    return f, table, var
+def _literal_body(kind, val, guessed, bad, und):
+    """The returned literal must be `"` + X + `"`: returns X (a term over the parameter) or None after recording why not."""
+    if kind != "return":
+        if kind == "raise":
+            (und if guessed else bad).append("a str/bytes value makes value_to_string raise")
+        else:
+            und.append(f"path ends with {kind}")
+        return None
+    parts = _flatten(val)
+    if len(parts) == 3 and parts[0] == '"' and parts[2] == '"' and isinstance(parts[1], _Sym) and parts[1].tag != "unk":
+        return parts[1]
+    if isinstance(val, _Sym) and val.tag in ("unk", "opaque") or any(isinstance(p, _Sym) and p.tag == "unk" for p in parts):
+        und.append(f"return value not understood: {_show(val)}")
+    elif guessed:
+        und.append(f"on a condition that is not understood the function returns {_show(val)}")
+    else:
+        bad.append(f"return value is {_show(val)}, not the escaped value between exactly two double quotes")
+    return None
+
+
+# ============================================================================================ decoder: string_token_to_bytes
+class _Path:
+    def __init__(self, events, end, guess_at, pos):
+        self.events = events
+        self.end = end
+        self.guess_at = guess_at
+        self.pos = pos
+
+    @property
+    def guessed(self):
+        return self.guess_at is not None
+
+    def reads(self):
+        return [(i, e[1], e[2]) for i, e in enumerate(self.events) if e[0] == "read"]
+
+    def checks(self):
+        return [(i, e[1], e[2], e[3]) for i, e in enumerate(self.events) if e[0] == "check"]
+
+    def appends(self):
+        return [e[1] for e in self.events if e[0] == "append"]
+
+    def read_at(self, pos) -> bool:
+        return any(p <= pos < p + n for _, p, n in self.reads())
+
+    def uncovered_reads(self, start_avail, from_pos=0):
+        """reads (event index, pos, n) that are not covered by an earlier successful availability check"""
+        avail = start_avail
+        out = []
+        for i, e in enumerate(self.events):
+            if e[0] == "check" and e[3]:
+                avail = max(avail, e[1] + e[2])
+            elif e[0] == "read" and e[1] + e[2] > avail and e[1] + e[2] > from_pos:
+                out.append((i, e[1], e[2]))
+        return out
+
+
+class _Dec(_Interp):
+    """One iteration of the decoding loop; the iterator is abstract, the delivered characters are concrete."""
+
+    def __init__(self, ctx, f, loop, oracle, cur, esc, it_cls, shared):
+        _Interp.__init__(self, ctx, f, oracle)
+        self.loop = loop
+        self.cur = cur
+        self.feed = [esc]
+        self.it_cls = it_cls
+        self.pos = 0
+        self.avail = 0
+        self.short = None
+        self.shared = shared  # per loop: facts that do not depend on the characters (names assigned in the loop, values defined before it)
+        if "assigned" not in shared:
+            shared["assigned"], shared["accumulated"] = _loop_assigned(loop)
+            shared["pre"] = {}
+        self.loop_assigned = shared["assigned"]
+        self.pre = shared["pre"]
+        self.params = set(params(f.node))
+
+    # ---------------------------------------------------------------- names defined before the loop
+    def free_name(self, name):
+        if name in self.params:
+            return _Sym("unk", (name,))
+        if name in self.pre:
+            return self.pre[name]
+        defs = assignments_to(self.f.node, name)
+        if name in self.loop_assigned:
+            raise _Unsupported("a local assigned inside the loop is read before it is assigned in the iteration (state carried between characters)")
+        accumulator = name in self.shared["accumulated"]
+        plain = [d for d in defs if d[1] is not None]
+        if len(plain) == 1 and (len(defs) == 1 or accumulator):
+            if name in self._busy:
+                return _Sym("unk", (name,))
+            self._busy.add(name)
+            n_ev, n_dec = len(self.events), len(self.o.taken)
+            try:
+                v = self.ev(plain[0][1])
+            finally:
+                self._busy.discard(name)
+            if len(self.events) != n_ev or len(self.o.taken) != n_dec:
+                raise _Unsupported("the iterator is used before the decoding loop")
+            if isinstance(v, (list, bytearray)) or (accumulator and isinstance(v, (bytes, str))):
+                v = _Sym("buf", (name,))  # the output accumulator: only what is added to it matters
+            elif accumulator:
+                raise _Unsupported("a counter/flag is updated across loop iterations (state carried between characters)")
+            self.pre[name] = v
+            return v
+        if accumulator:
+            raise _Unsupported("an accumulator of the loop has no single definition before it")
+        if defs:
+            return _Sym("unk", (name,))
+        return self.modconst(name)
+
+    def escapes(self, values):
+        if any(_mentions(v, _ITER) for v in values):
+            raise _Unsupported("the iterator is handed to / used by code the interpreter does not model")
+
+    # ---------------------------------------------------------------- iterator protocol
+    def read(self, n, single):
+        p = self.pos
+        self.events.append(("read", p, n))
+        self.pos += n
+        if single and p <= 1:
+            if p == 0:
+                return self.cur
+            return self.feed.pop(0)
+        return _Sym("digits", (tuple(range(p, p + n)),), "str" if single else "list")
+
+    def check(self, n):
+        p = self.pos
+        if p + n <= self.avail:
+            out = True
+        elif self.short is not None and p + n >= self.short:
+            out = False
+        else:
+            out = self.o.decide()
+        if out:
+            self.avail = max(self.avail, p + n)
+        else:
+            self.short = p + n if self.short is None else min(self.short, p + n)
+        self.events.append(("check", p, n, out))
+        return out
+
+    def is_iter_ctor(self, e) -> bool:
+        try:
+            c = self.ctx.rs.resolve_call(self.f, e)
+            if c is not None and c.kind == "class" and c.fq == self.it_cls:
+                return True
+        except Exception:
+            pass
+        return (dotted(e.func) or "").split(".")[-1] == self.it_cls.split(".")[-1]
+
+    def call_hook(self, e):
+        fn = e.func
+        if self.is_iter_ctor(e):
+            self.scan(e)
+            return _ITER
+        if isinstance(fn, ast.Name) and fn.id in ("next", "iter") and e.args and fn.id not in self.env:
+            v = self.ev(e.args[0])
+            if v is _ITER:
+                if fn.id == "iter":
+                    raise _Unsupported("iter() on the iterator inside the loop")
+                if len(e.args) != 1 or e.keywords:
+                    raise _Unsupported("next(it, default)")
+                return self.read(1, True)
+            self.escapes([v])
+            for a in e.args[1:]:
+                self.ev(a)
+            return self.unk(e)
+        if isinstance(fn, ast.Attribute):
+            recv = self.ev(fn.value)
+            if recv is _ITER:
+                if fn.attr == "__next__" and not e.args and not e.keywords:
+                    return self.read(1, True)
+                if fn.attr == "next":
+                    n = self._count(e, "next")
+                    return self.read(n, False)
+                if fn.attr == "has_next":
+                    return self.check(self._count(e, "has_next"))
+                raise _Unsupported(f"iterator member `{fn.attr}` used directly")
+            if isinstance(recv, _Sym) and recv.tag in ("buf", "unk") and fn.attr in ("append", "extend") and len(e.args) == 1 and not e.keywords and isinstance(fn.value, ast.Name):
+                v = self.ev(e.args[0])
+                self.escapes([v])
+                if fn.attr == "append":
+                    self.events.append(("append", v))
+                else:
+                    self.extend(v)
+                return None
+            if isinstance(recv, _Sym) and recv.tag == "buf":
+                raise _Unsupported(f"output buffer method `{fn.attr}`")
+            # fall through to the generic evaluation (the receiver is evaluated again: only names/constants reach here
+            # with effects when it is the iterator, which was handled above)
+        return _NOHOOK
+
+    def _count(self, e, meth) -> int:
+        fn = self.ctx.repo.func(f"{self.it_cls}.{meth}") if self.ctx.repo.has_func(f"{self.it_cls}.{meth}") else None
+        node = None
+        if fn is not None:
+            b = bind_args(e, fn.node, skip_self=True)
+            if len(b) == 1:
+                node = list(b.values())[0]
+        elif e.args:
+            node = e.args[0]
+        elif e.keywords:
+            node = e.keywords[0].value
+        if node is None:
+            raise _Unsupported(f"argument of {meth}() not found")
+        n = self.ev(node)
+        if isinstance(n, bool) or not isinstance(n, int) or n < 0 or n > 64:
+            raise _Unsupported(f"{meth}() with a count that is not a small constant")
+        return n
+
+    def extend(self, v):
+        if isinstance(v, _Sym) and v.tag == "bytesof":
+            for x in v.args[0]:
+                self.events.append(("append", x))
+        elif isinstance(v, (list, tuple, bytes)):
+            for x in v:
+                self.events.append(("append", x))
+        else:
+            self.events.append(("append", _Sym("unk", ("extend",))))
+
+    def augassign(self, st, cur, rhs):
+        if isinstance(st.op, ast.Add) and isinstance(cur, _Sym) and cur.tag in ("buf", "unk") and (isinstance(rhs, (list, tuple, bytes)) or isinstance(rhs, _Sym) and rhs.tag == "bytesof"):
+            self.extend(rhs)
+            return cur
+        if isinstance(cur, _Sym) and cur.tag == "buf":
+            raise _Unsupported("output buffer updated in a way the interpreter does not model")
+        return _Interp.augassign(self, st, cur, rhs)
+
+    def store(self, target, v):
+        if isinstance(target, ast.Subscript):
+            base = self.ev(target.value)
+            if any(base is v for v in self.pre.values()):
+                raise _Unsupported("a table defined before the loop is modified inside it")
+            if isinstance(base, dict) or isinstance(base, list):
+                idx = self.ev(target.slice)
+                try:
+                    base[idx] = v
+                    return
+                except Exception:
+                    pass
+        raise _Unsupported(f"assignment to `{src(target)}`")
+
+    # ---------------------------------------------------------------- symbolic hex digits
+    def sym_truth(self, v):
+        if v.tag == "int":
+            # the decoded number can be zero or not: both outcomes are feasible (a data fork, not a guess)
+            return self.o.decide()
+        return None
+
+    def sym_method(self, e, recv, attr, args, kws):
+        if isinstance(recv, str) and attr == "join" and len(args) == 1 and not kws:
+            a = args[0]
+            if isinstance(a, _Sym) and a.tag == "digits" and recv == "":
+                return _Sym("digits", a.args, "str")
+            if isinstance(a, (list, tuple)) and a and all(isinstance(x, _Sym) and x.tag == "digits" for x in a) and recv == "":
+                return _Sym("digits", (tuple(p for x in a for p in x.args[0]),), "str")
+        return _NOHOOK
+
+    def sym_function(self, e, name, args, kws):
+        if name == "int" and args and isinstance(args[0], _Sym) and args[0].tag == "digits" and len(args) <= 2:
+            base = args[1] if len(args) == 2 else kws.get("base", 10)
+            if isinstance(base, int):
+                return _Sym("int", (args[0].args[0], base))
+        if name in ("bytes", "bytearray") and len(args) == 1 and isinstance(args[0], (list, tuple)) and not kws:
+            return _Sym("bytesof", (tuple(args[0]),))
+        if name in ("str", "list", "tuple") and len(args) == 1 and isinstance(args[0], _Sym) and args[0].tag == "digits" and not kws:
+            return _Sym("digits", args[0].args, "str" if name == "str" and args[0].typ == "str" else "list") if not (name == "str" and args[0].typ != "str") else _NOHOOK
+        return _NOHOOK
+
+    def sym_binop(self, e, a, b):
+        if isinstance(e.op, ast.Add) and all(isinstance(x, _Sym) and x.tag == "digits" for x in (a, b)) and a.typ == b.typ:
+            return _Sym("digits", (a.args[0] + b.args[0],), a.typ)
+        return _NOHOOK
+
+    def sym_subscript(self, e, base, idx, is_slice):
+        if isinstance(base, _Sym) and base.tag == "digits" and _concrete(idx):
+            try:
+                if is_slice:
+                    return _Sym("digits", (base.args[0][slice(*idx)],), base.typ)
+                return _Sym("digits", ((base.args[0][idx],),), "str")
+            except Exception:
+                return _NOHOOK
+        return _NOHOOK
+
+    # ---------------------------------------------------------------- one iteration
+    def iteration(self) -> _Path:
+        loop = self.loop
+        try:
+            if isinstance(loop, ast.For):
+                if self.ev(loop.iter) is not _ITER:
+                    raise _Unsupported("loop does not iterate the StringIterator")
+                self.events.append(("read", 0, 1))
+                self.pos = self.avail = 1
+                self.bind(loop.target, self.cur)
+            else:
+                if not self.truth(self.ev(loop.test)):
+                    return _Path(self.events, "exit", self.guess_at, self.pos)
+            self.block(loop.body)
+            end = "end"
+        except _Flow as fl:
+            end = fl.kind
+            if fl.kind == "raise":
+                self.events.append(("raise", fl.value))
+        return _Path(self.events, end, self.guess_at, self.pos)
+
+
+def _loop_assigned(loop):
+    """(names bound by plain assignments in the loop body, names only updated by augmented assignment there)"""
+    out, aug = set(), set()
+    for st in loop.body:
+        for n in ast.walk(st):
+            if isinstance(n, ast.AugAssign) and isinstance(n.target, ast.Name):
+                aug.add(n.target.id)
+        for n in ast.walk(st):
+            if isinstance(n, ast.Name) and isinstance(n.ctx, ast.Store):
+                out.add(n.id)
+            elif isinstance(n, ast.NamedExpr):
+                out.add(n.target.id)
+    plain = set()
+    for st in loop.body:
+        for n in ast.walk(st):
+            if isinstance(n, ast.AugAssign):
+                continue
+            for t in ([n.target] if isinstance(n, (ast.AnnAssign, ast.For, ast.NamedExpr)) else n.targets if isinstance(n, ast.Assign) else
+                      [i.optional_vars for i in n.items if i.optional_vars is not None] if isinstance(n, ast.With) else []):
+                for x in ast.walk(t):
+                    if isinstance(x, ast.Name):
+                        plain.add(x.id)
+            if isinstance(n, ast.MatchAs) and n.name:
+                plain.add(n.name)
+    aug -= plain
+    out = (out | plain) - aug
+    if isinstance(loop, ast.For):
+        for n in ast.walk(loop.target):
+            if isinstance(n, ast.Name):
+                out.discard(n.id)
+    return out, aug
+
+
+_IT_CLS = "c2profile.StringIterator"
+
+
+class _Decoder:
+    """Traces of the decoding loop for every character / escape letter (computed once per run)."""
+
+    def __init__(self, ctx):
+        self.ctx = ctx
+        self.f = ctx.repo.func("c2profile.string_token_to_bytes")
+        self.error = None
+        self.loop = None
+        self.escape = {}  # letter -> [paths on which the letter was read]
+        self.plain = {}  # ordinary character -> [paths]
+        self._shared = {}
+        try:
+            self._build()
+        except _Unsupported as e:
+            self.error = str(e)
+
+    def _candidate_loops(self):
+        fv = FuncView.of(self.f.node)
+        loops = [st for st in statements(self.f.node) if isinstance(st, (ast.For, ast.While))]
+        return [st for st in loops if fv.enclosing(st, (ast.For, ast.While)) is None]
+
+    def _run(self, loop, cur, esc):
+        shared = self._shared.setdefault(id(loop), {})
+
+        def run(o):
+            return _Dec(self.ctx, self.f, loop, o, cur, esc, _IT_CLS, shared).iteration()
+
+        return _all_paths(run)
+
+    def _build(self):
+        chosen = None
+        last = None
+        for loop in self._candidate_loops():
+            try:
+                ps = self._run(loop, "\\", "n")
+            except _Unsupported as e:
+                last = e
+                continue
+            if any(p.events for p in ps):
+                chosen = loop
+                break
+        if chosen is None:
+            raise _Unsupported(str(last) if last else "no loop over a StringIterator found in string_token_to_bytes")
+        self.loop = chosen
+        for code in range(256):
+            ch = chr(code)
+            ps = [p for p in self._run(chosen, "\\", ch) if p.end != "exit" and p.read_at(0)]
+            self.escape[ch] = [p for p in ps if p.read_at(1)]
+            if ch != "\\":
+                self.plain[ch] = [p for p in self._run(chosen, ch, "n") if p.end != "exit" and p.read_at(0)]
+
+    def handled(self, letter) -> bool:
+        """The decoder does something for backslash + letter (anything but silently dropping the two characters)."""
+        for p in self.escape.get(letter, []):
+            if p.appends() or p.end == "raise" or any(pos >= 2 for _, pos, _ in p.reads()) or any(pos + n > 2 for _, pos, n, _ in p.checks()):
+                return True
+        return False
+
+
+def _decoder(ctx) -> _Decoder:
+    d = ctx.__dict__.get("_c12_decoder")
+    if d is None:
+        d = _Decoder(ctx)
+        ctx.__dict__["_c12_decoder"] = d
+    return d
+
+
+def _hexbyte(v, positions):
+    return isinstance(v, _Sym) and v.tag == "int" and v.args == (tuple(positions), 16)
+
+
+def _is_unknown(v):
+    return isinstance(v, _Sym) and v.tag in ("unk", "buf")
 
 
 def r2(ctx):
-    f, table, var = _decoder_table(ctx)
-    ctx.ob("R2", "TABLE", f, "escape letters", set(table) == set(tables.ESCAPES), f"decoder handles {sorted(table)}; documented set {sorted(tables.ESCAPES)}")
-    for letter, byte in tables.ESCAPES.items():
-        if letter not in table:
-            continue
-        st, apps = table[letter]
-        if byte is not None:
-            got = None
-            if len(apps) == 1 and apps[0].args:
-                a = apps[0].args[0]
-                if isinstance(a, ast.Call) and dotted(a.func) == "ord" and isinstance(_c(a.args[0]), str):
-                    got = ord(_c(a.args[0]))
-                else:
-                    got = _c(a)
-            ctx.ob("R2", "TABLE", f, f"escape \\{letter}", got == byte, f"\\{letter} appends byte {got!r} (documented 0x{byte:02x})", st)
-        else:
+    d = _decoder(ctx)
+    f = d.f
+    if d.error is not None:
+        ctx.undecided("R2", "TABLE", f, "escape letters", f"the decoding loop of string_token_to_bytes is not understood by the symbolic evaluation: {d.error}")
+    else:
+        table = sorted(ch for ch in d.escape if d.handled(ch))
+        ctx.ob("R2", "TABLE", f, "escape letters", set(table) == set(tables.ESCAPES), f"decoder handles {table}; documented set {sorted(tables.ESCAPES)}", d.loop)
+        # the escape letter itself is only read when a character is left
+        bad, und = [], []
+        for p in d.escape.get("n", []):
+            for i, pos, n in p.uncovered_reads(1 if isinstance(d.loop, ast.For) else 0):
+                if pos <= 1 < pos + n:
+                    (und if p.guessed and p.guess_at <= i else bad).append("the character after a backslash is read without an availability check (a literal ending in a lone backslash fails)")
+        _verdict(ctx, "R2", "DOM", f, "escape letter read after has_next()", bad, und, "the character after the backslash is only read when has_next() holds", d.loop)
+        for letter, byte in tables.ESCAPES.items():
+            if letter not in table:
+                continue
+            paths = d.escape[letter]
+            if byte is not None:
+                bad, und = [], []
+                for p in paths:
+                    apps = p.appends()
+                    extra = [1 for _, pos, _ in p.reads() if pos >= 2] + [1 for _, pos, n, _ in p.checks() if pos + n > 2]
+                    if p.end in ("end", "continue") and not extra and len(apps) == 1 and not isinstance(apps[0], (_Sym, bool)) and apps[0] == byte:
+                        continue
+                    if p.guessed or any(_is_unknown(a) for a in apps):
+                        und.append(f"\\{letter}: a path depends on a condition/value that is not understood (appends {apps})")
+                    elif extra:
+                        bad.append(f"\\{letter} consumes or demands characters after the escape letter")
+                    elif p.end not in ("end", "continue"):
+                        bad.append(f"\\{letter} ends the decoding with {p.end}")
+                    else:
+                        bad.append(f"\\{letter} appends {apps if len(apps) != 1 else apps[0]!r} (documented 0x{byte:02x})")
+                _verdict(ctx, "R2", "TABLE", f, f"escape \\{letter}", bad, und, f"\\{letter} appends byte {byte!r} (documented 0x{byte:02x})", d.loop)
+                continue
             need = 2 if letter == "x" else 4
-            hn = [c for s in st.body for c in ast.walk(s) if isinstance(c, ast.Call) and isinstance(c.func, ast.Attribute) and c.func.attr == "has_next"]
-            nx = [c for s in st.body for c in ast.walk(s) if isinstance(c, ast.Call) and isinstance(c.func, ast.Attribute) and c.func.attr == "next"]
-            ints = [c for s in st.body for c in ast.walk(s) if isinstance(c, ast.Call) and dotted(c.func) == "int" and len(c.args) == 2 and _c(c.args[1]) == 16]
-            rs = [s2 for s in st.body for s2 in ast.walk(s) if isinstance(s2, ast.Raise)]
-            checked = len(hn) == 1 and _c(hn[0].args[0]) == need
-            consumed = sum(_c(c.args[0]) or 0 for c in nx)
-            # the raise is on the `not has_next` edge and is a ValueError
-            r_ok = bool(rs) and all(raise_class(r) == "ValueError" for r in rs)
-            # the appended value is the last 2 hex digits read
-            nx.sort(key=lambda c: (c.lineno, c.col_offset))
-            last_two = bool(nx) and _c(nx[-1].args[0]) == 2 and len(ints) == 1
-            if last_two:
-                # the digits handed to int(.., 16) are those of the LAST next() call (low byte pair)
-                from csverif.q import inline as _inl
-                arg = ints[0].args[0]
-                if isinstance(arg, ast.Name):
-                    # the definition inside this branch
-                    defs = [s2.value for s in st.body for s2 in ast.walk(s) if isinstance(s2, ast.Assign) and dotted(s2.targets[0]) == arg.id]
-                    arg = defs[-1] if defs else arg
-                arg = _inl(f.node, arg)
-                pos_last = (nx[-1].lineno, nx[-1].col_offset)
-                last_two = any(isinstance(n, ast.Call) and isinstance(n.func, ast.Attribute) and n.func.attr == "next" and (n.lineno, n.col_offset) == pos_last for n in ast.walk(arg))
-            # typestate: nothing is consumed before the availability check covering the whole escape
-            from csverif.q import guarded_by as _gb
-            unguarded = [src(c) for c in nx if not (hn and _gb(ctx, f, c, lambda t, h=hn[0]: True if (isinstance(t, ast.Call) and src(t) == src(h)) else None))]
-            ctx.ob("R2", "DOM", f, f"escape \\{letter}: has_next({need}) precedes every digit read", not unguarded,
-                   "every next() of the escape is dominated by the availability check" if not unguarded else f"digits consumed before/without the availability check: {unguarded} (a complete escape near the end of the literal is rejected)", st)
-            ctx.ob("R2", "TABLE", f, f"escape \\{letter}", checked and consumed == need and r_ok and last_two and len(apps) == 1,
-                   f"\\{letter}: checks has_next({_c(hn[0].args[0]) if hn else None}) (required {need}), consumes {consumed} digits (required {need}), appends int(<last 2 digits>, 16)={last_two}, short input raises ValueError={r_ok}", st)
-    # an ordinary character is appended as its code
-    loopvars = {dotted(s2.target) for s2 in statements(f.node) if isinstance(s2, ast.For)}
-    apps_else = [c for c in fn_calls(f.node) if isinstance(c.func, ast.Attribute) and c.func.attr == "append" and c.args and isinstance(c.args[0], ast.Call) and dotted(c.args[0].func) == "ord"
-                 and c.args[0].args and dotted(c.args[0].args[0]) in loopvars]
-    ctx.ob("R2", "AGREE", f, "ordinary characters", len(apps_else) == 1, "characters outside escapes are appended as ord(c)")
-    it = ctx.repo.func("c2profile.StringIterator.__init__")
-    ok = any("ord(c) & 255" in src(n) or "ord(c) & 0xFF" in src(n) for n in body_walk(it.node))
-    ctx.ob("R2", "AGREE", it, "chr(ord(c) & 0xFF)", ok, "characters are reduced to one byte before decoding" if ok else "StringIterator no longer masks characters to a byte")
-    # quotes are stripped before decoding
-    strip = [n for n in body_walk(f.node) if isinstance(n, ast.Subscript) and isinstance(n.slice, ast.Slice) and src(n.value).endswith(".value") and _c(n.slice.lower) == 1 and _c(n.slice.upper) == -1]
-    ctx.ob("R2", "AGREE", f, "token.value[1:-1]", len(strip) == 1, "the surrounding quotes are stripped, nothing else")
+            want = (need, need + 1)  # positions of the low byte pair: cur=0, escape letter=1, digits from 2
+            start = 1 if isinstance(d.loop, ast.For) else 0
+            # typestate: nothing is consumed before an availability check covering it
+            bad, und = [], []
+            for p in paths:
+                for i, pos, n in p.uncovered_reads(start, from_pos=2):
+                    if pos + n <= 2:
+                        continue
+                    msg = f"digits at offset {pos - 2}..{pos - 2 + n} of the escape are consumed before/without an availability check covering them (a short literal is silently mis-decoded, or a later check demands too much)"
+                    (und if p.guessed and p.guess_at <= i else bad).append(msg)
+            _verdict(ctx, "R2", "DOM", f, f"escape \\{letter}: has_next({need}) precedes every digit read", bad, und, "every next() of the escape is dominated by an availability check covering it", d.loop)
+            bad, und = [], []
+            seen_full = False
+            for p in paths:
+                cks = [(pos, n, out) for _, pos, n, out in p.checks() if pos + n > 2]
+                over = [(pos, n) for pos, n, out in cks if pos + n > 2 + need]
+                if over:
+                    pos, n = over[0]
+                    (und if p.guessed else bad).append(f"has_next({n}) at offset {pos - 2} of the escape demands {pos + n - 2} characters after \\{letter}, the escape has {need} (a complete escape at the end of the literal is rejected)")
+                    continue
+                if all(out for _, _, out in cks):
+                    if p.guessed:
+                        if p.end == "raise" or len(p.appends()) != 1 or not _hexbyte(p.appends()[0], want):
+                            und.append(f"\\{letter}: a path depends on a condition that is not understood")
+                        continue
+                    seen_full = True
+                    apps = p.appends()
+                    consumed = p.pos - 2
+                    if p.end not in ("end", "continue"):
+                        bad.append(f"\\{letter} with all {need} digits available ends with {p.end}")
+                    elif len(apps) != 1:
+                        bad.append(f"\\{letter} appends {len(apps)} values (required: exactly one byte)")
+                    elif any(_is_unknown(a) for a in apps):
+                        und.append(f"\\{letter}: appended value not understood")
+                    elif consumed != need:
+                        bad.append(f"\\{letter} consumes {consumed} characters after the letter (required {need})")
+                    elif not _hexbyte(apps[0], want):
+                        bad.append(f"\\{letter} appends {apps[0]!r}; required int(<characters {want[0] - 2}, {want[1] - 2} after the escape letter>, 16), the low byte pair")
+                else:
+                    # not enough characters left: ValueError, nothing appended
+                    if p.end == "raise" and p.events[-1][1] == "ValueError" and not p.appends():
+                        continue
+                    (und if p.guessed else bad).append(f"\\{letter} on a literal that is too short ends with {p.end}{' ' + str(p.events[-1][1]) if p.end == 'raise' else ''} and appends {p.appends()} (required: ValueError, nothing appended)")
+            if not seen_full and not bad and not und:
+                und.append(f"no path that decodes a complete \\{letter} escape was found")
+            _verdict(ctx, "R2", "TABLE", f, f"escape \\{letter}", bad, und,
+                     f"\\{letter}: availability of {need} characters is checked, {need} are consumed, int(<last 2 digits>, 16) is appended, short input raises ValueError", d.loop)
+        # an ordinary character is appended as its code
+        bad, und = [], []
+        for ch, paths in d.plain.items():
+            for p in paths:
+                apps = p.appends()
+                extra = [1 for _, pos, _ in p.reads() if pos >= 1]
+                if p.end in ("end", "continue") and not extra and len(apps) == 1 and not isinstance(apps[0], (_Sym, bool)) and apps[0] == ord(ch):
+                    continue
+                if p.guessed or any(_is_unknown(a) for a in apps):
+                    und.append(f"character {ch!r}: path not understood")
+                else:
+                    bad.append(f"character {ch!r} outside an escape gives {apps}{' and consumes more characters' if extra else ''}{'' if p.end in ('end', 'continue') else ' then ' + p.end} (required: its code {ord(ch)})")
+            if not paths:
+                und.append(f"character {ch!r}: no path")
+        bad = bad[:3] + ([f"... {len(bad) - 3} more"] if len(bad) > 3 else [])
+        und = und[:3]
+        _verdict(ctx, "R2", "AGREE", f, "ordinary characters", bad, und, "every character other than a backslash is appended as ord(c) and nothing else is consumed", d.loop)
+    _r2_mask(ctx)
+    _r2_strip(ctx, f)
+
+
+def _r2_mask(ctx):
+    it = ctx.repo.func(_IT_CLS + ".__init__")
+    fv = FuncView.of(it.node)
+    ords = [n for n in ast.walk(it.node) if isinstance(n, ast.Call) and dotted(n.func) == "ord"]
+    masked = 0
+    for o in ords:
+        p = fv.parent.get(id(o))
+        if isinstance(p, ast.BinOp):
+            other = p.right if p.left is o else p.left
+            c = _const(other)
+            if (isinstance(p.op, ast.BitAnd) and c == 0xFF) or (isinstance(p.op, ast.Mod) and c == 256 and p.left is o):
+                masked += 1
+    if not ords:
+        ctx.undecided("R2", "AGREE", it, "chr(ord(c) & 0xFF)", "StringIterator.__init__ no longer converts characters with ord(); the reduction to one byte cannot be located")
+    else:
+        ctx.ob("R2", "AGREE", it, "chr(ord(c) & 0xFF)", masked > 0, "characters are reduced to one byte before decoding" if masked else "StringIterator no longer masks characters to a byte")
+
+
+def _const(node):
+    if isinstance(node, ast.Constant):
+        return node.value
+    if isinstance(node, ast.UnaryOp) and isinstance(node.op, ast.USub) and isinstance(node.operand, ast.Constant) and isinstance(node.operand.value, (int, float)):
+        return -node.operand.value
+    return None
+
+
+def _r2_strip(ctx, f):
+    """quotes are stripped before decoding: located as the argument of the StringIterator constructor"""
+    text = "token.value[1:-1]"
+    calls = []
+    for c in [n for n in body_walk(f.node) if isinstance(n, ast.Call)]:
+        try:
+            r = ctx.rs.resolve_call(f, c)
+            hit = r is not None and r.kind == "class" and r.fq == _IT_CLS
+        except Exception:
+            hit = False
+        if hit or (dotted(c.func) or "").split(".")[-1] == "StringIterator":
+            calls.append(c)
+    if len(calls) != 1:
+        ctx.undecided("R2", "AGREE", f, text, f"{len(calls)} StringIterator(...) constructions in string_token_to_bytes")
+        return
+    init = ctx.repo.func(_IT_CLS + ".__init__")
+    b = bind_args(calls[0], init.node, skip_self=True)
+    arg = list(b.values())[0] if len(b) == 1 else (calls[0].args[0] if calls[0].args else None)
+    if arg is None:
+        ctx.undecided("R2", "AGREE", f, text, "argument of StringIterator(...) not found")
+        return
+    e = inline(f.node, arg)
+    tok = params(f.node)[0]
+
+    def about_token(x):
+        return any(isinstance(n, ast.Name) and n.id == tok for n in ast.walk(x))
+
+    verdict, why = None, f"the text handed to the iterator is `{src(e)}`, which is not understood"
+    # chains of strip()/removeprefix()/... and slices, outermost first
+    layers, x = [], e
+    while True:
+        if isinstance(x, ast.Subscript) and isinstance(x.slice, ast.Slice):
+            layers.append(("slice", x))
+            x = x.value
+        elif isinstance(x, ast.Call) and isinstance(x.func, ast.Attribute) and x.func.attr in ("strip", "lstrip", "rstrip", "removeprefix", "removesuffix"):
+            layers.append((x.func.attr, x))
+            x = x.func.value
+        else:
+            break
+    if not about_token(x):
+        ctx.undecided("R2", "AGREE", f, text, why)
+        return
+    kinds = [k for k, _ in layers]
+    if any(k in ("strip", "lstrip", "rstrip") for k in kinds):
+        verdict, why = False, f"`{src(e)}` strips every leading/trailing quote, also an escaped quote that ends the content"
+    elif kinds == ["slice"]:
+        sl = layers[0][1].slice
+        lo, hi, st = _const(sl.lower) if sl.lower is not None else None, _const(sl.upper) if sl.upper is not None else None, _const(sl.step) if sl.step is not None else None
+        if sl.upper is not None and hi is None and isinstance(sl.upper, ast.BinOp) and isinstance(sl.upper.op, ast.Sub) and _const(sl.upper.right) == 1 \
+                and isinstance(sl.upper.left, ast.Call) and dotted(sl.upper.left.func) == "len" and sl.upper.left.args and src(sl.upper.left.args[0]) == src(layers[0][1].value):
+            hi = -1
+        if (sl.lower is not None and lo is None) or (sl.upper is not None and hi is None) or (sl.step is not None and st is None):
+            verdict = None
+        elif (lo, hi) == (1, -1) and st in (None, 1):
+            verdict, why = True, "the surrounding quotes are stripped, nothing else"
+        else:
+            verdict, why = False, f"`{src(e)}` does not strip exactly the two surrounding quotes (required [1:-1])"
+    elif sorted(kinds) == ["removeprefix", "removesuffix"] and all(len(c.args) == 1 and _const(c.args[0]) == '"' for _, c in layers):
+        verdict, why = True, "exactly one quote is removed at each end"
+    elif not kinds:
+        verdict, why = False, f"`{src(e)}`: the surrounding quotes are not stripped before decoding"
+    if verdict is None:
+        ctx.undecided("R2", "AGREE", f, text, why, calls[0])
+    else:
+        ctx.ob("R2", "AGREE", f, text, verdict, why, calls[0])
 
 
 def r3(ctx):
-    f, table, var = _decoder_table(ctx)
+    d = _decoder(ctx)
+    if d.error is not None:
+        ctx.undecided("R3", "VOCAB", d.f, "encoder output accepted", f"the decoder's escape table cannot be extracted: {d.error}")
+        return
     # what CPython's repr(bytes) with single-quote delimiter can emit after a backslash, plus the encoder's own \" :
     emitted = {"x", "n", "r", "t", "\\", "'", '"'}
-    miss = sorted(emitted - set(table))
-    ctx.ob("R3", "VOCAB", f, "encoder output accepted", not miss, f"escape letters value_to_string can emit (\\xHH \\n \\r \\t \\\\ \\' \\\") not handled by the decoder: {miss}")
+    miss = sorted(ch for ch in emitted if not d.handled(ch))
+    ctx.ob("R3", "VOCAB", d.f, "encoder output accepted", not miss, f"escape letters value_to_string can emit (\\xHH \\n \\r \\t \\\\ \\' \\\") not handled by the decoder: {miss}")
+
+
+# ============================================================================================ the STRING terminal
+def _single_chars(items, sc, universe):
+    """Set of characters (within `universe`) matched by a regex fragment that consumes exactly one character, else None."""
+    import re
+
+    items = list(items)
+    if len(items) != 1:
+        return None
+    op, av = items[0]
+    if op is sc.SUBPATTERN:
+        return _single_chars(av[3], sc, universe)
+    if op is sc.BRANCH:
+        out = set()
+        for alt in av[1]:
+            s = _single_chars(alt, sc, universe)
+            if s is None:
+                return None
+            out |= s
+        return out
+    if op is sc.ANY:
+        return {c for c in universe if c != "\n"}
+    if op is sc.LITERAL:
+        return {chr(av)} & universe
+    if op is sc.NOT_LITERAL:
+        return {c for c in universe if c != chr(av)}
+    if op is sc.IN:
+        neg = False
+        out = set()
+        for iop, iav in av:
+            if iop is sc.NEGATE:
+                neg = True
+            elif iop is sc.LITERAL:
+                out.add(chr(iav))
+            elif iop is sc.RANGE:
+                out |= {c for c in universe if iav[0] <= ord(c) <= iav[1]}
+            elif iop is sc.CATEGORY:
+                cls = {sc.CATEGORY_DIGIT: r"\d", sc.CATEGORY_NOT_DIGIT: r"\D", sc.CATEGORY_SPACE: r"\s", sc.CATEGORY_NOT_SPACE: r"\S", sc.CATEGORY_WORD: r"\w", sc.CATEGORY_NOT_WORD: r"\W"}.get(iav)
+                if cls is None:
+                    return None
+                rx = re.compile(cls)
+                out |= {c for c in universe if rx.fullmatch(c)}
+            else:
+                return None
+        return (universe - out) if neg else (out & universe)
+    return None
 
 
 def r4(ctx):
@@ -186,7 +1778,7 @@ def r4(ctx):
     except Exception as e:  # pragma: no cover
         ctx.ob("R4", "GRAM", "c2profile.lark::STRING", "regex parses", False, f"regex does not parse: {e}")
         return
-    ops = [str(op) for op, _ in parsed]
+    universe = {chr(i) for i in range(0x180)} | {" ", "€", "￿", "\U0001f600"}
     ok_open = bool(parsed) and parsed[0] == (sc.LITERAL, 34)
     ok_close = bool(parsed) and parsed[-1] == (sc.LITERAL, 34)
     lazy_body = False
@@ -196,8 +1788,8 @@ def r4(ctx):
     for i, (op, av) in enumerate(parsed[1:-1], 1):
         if op is sc.MIN_REPEAT and not lazy_body and not lookbehind:
             lo, hi, sub = av
-            flat = str(sub)
-            lazy_body = lo == 0 and hi == sc.MAXREPEAT and "ANY" in flat
+            chars = _single_chars(sub, sc, universe)
+            lazy_body = lo == 0 and hi == sc.MAXREPEAT and chars is not None and chars == universe
             order.append("body")
         elif op is sc.ASSERT_NOT:
             direction, sub = av
@@ -208,8 +1800,31 @@ def r4(ctx):
             inner = list(sub)
             if len(inner) == 1 and inner[0][0] is sc.SUBPATTERN:
                 inner = list(inner[0][1][3])
-            even_run = lo == 0 and inner == [(sc.LITERAL, 92), (sc.LITERAL, 92)]
+            even_run = lo == 0 and hi == sc.MAXREPEAT and inner == [(sc.LITERAL, 92), (sc.LITERAL, 92)]
             order.append("pairs")
+        else:
+            order.append(str(op).lower())
     ok = ok_open and ok_close and lazy_body and lookbehind and even_run and order == ["body", "lookbehind", "pairs"]
     ctx.ob("R4", "GRAM", "c2profile.lark::STRING", "regex structure", ok,
            f"STRING = {val!r}: opening quote={ok_open}, lazy any-char body={lazy_body}, negative look-behind on a backslash={lookbehind}, followed by a run of backslash PAIRS={even_run}, closing quote={ok_close}, order={order}")
+
+
+def run(ctx):
+    rep = ctx.rep
+    rep.explanation = (
+        "Static analysis of value_to_string / string_token_to_bytes in c2profile.py and of the STRING terminal. The encoder is "
+        "evaluated symbolically for a bytes and for a str argument: on every path the returned literal is the value between two "
+        "double quotes, a bytes value passes the repr-based escaper (quote style pinned by a concatenated double quote, slice "
+        "constants consistent with that pin) and then the double-quote replacement. One iteration of the decoder's loop is "
+        "evaluated for every ordinary character and for a backslash followed by each of the 256 possible escape letters over an "
+        "abstract iterator: the set of handled letters and their byte values are compared with the documented table, hex escapes "
+        "check availability before consuming, consume exactly their digits and append the low byte pair; everything the encoder "
+        "can emit is in the decoder's table; the STRING regex is inspected on its parsed AST (opening quote, lazy any-character "
+        "body, closing quote preceded by an even run of backslashes)."
+    )
+    rep.not_decided = ["the round trip for all byte strings (depends on CPython's repr)", "the 'exactly one token' claim over all inputs (regex matching semantics)"]
+    rep.trusted_base = ["CPython ast and repr(bytes) escaping rules", "re._parser", "lark grammar loader"]
+    r1(ctx)
+    r2(ctx)
+    r3(ctx)
+    r4(ctx)
